@@ -10,7 +10,7 @@
    of unordered-iteration sites must be exactly the list the model accounts for. *)
 From Coq Require Import String List Permutation.
 From PVBld Require Import Generated.Inventory Generated.CollectSites Pipeline Collect Dedup
-                          Proofs.PipelineP Proofs.InventoryP Proofs.CollectP Proofs.DedupP.
+                          Proofs.PipelineP Proofs.InventoryP Proofs.CollectP Proofs.DedupP Proofs.SplitNamesP.
 Import ListNotations.
 
 (* single-file mode: the text written to the output file (and the -- empty -- set of side files) *)
@@ -140,7 +140,7 @@ Theorem C17_collect_iterations :
   map fst accounted_iterations = collect_iterations /\
   filter (fun e => match snd e with OSeeded _ => true | _ => false end) accounted_iterations =
     [("collect"%string, "self.entry_map = location_map .clone() .into_iter() .into_group_map_by(|item| item.1.clone());"%string, OSeeded "pi_entry")] /\
-  map fst collect_source_digests = ["collect"; "collect_items"; "duplicate"; "write_items"]%string.
+  map fst collect_source_digests = ["collect"; "collect_items"; "duplicate"; "write_items"; "write_split_mod"; "generate_unique_name"]%string.
 Proof.
   exact (conj (proj1 collect_iterations_accounted) (conj (proj2 collect_iterations_accounted) (f_equal (map fst) collect_sources_pinned))).
 Qed.
@@ -172,3 +172,23 @@ Theorem C17_dedup_shared_map_refuted :
   written_groups (nat * nat) br_name br_equal ["BaseResp"%string] [g1; g2] = [[(1, 0)]; [(2, 0)]].
 Proof. exact dedup_shared_map_refuted. Qed.
 Print Assumptions C17_dedup_shared_map_refuted.
+
+(* ---- split mode: the file names of a module are a function of its item SEQUENCE (write_split_mod / generate_unique_name) -----------
+   the names (with .rs) written for a group = the names `assigned` computes from the list of `{kind}_{name}` strings in item order:
+   no other input, no hash-ordered iteration (regenerated facts about the helper: split_naming_facts) *)
+Theorem C17_split_names_order_determined :
+  (forall (item : Type) (render kind_prefix item_name : item -> string) existing its,
+     map fst (fst (split_items item render kind_prefix item_name existing its)) =
+     map (fun u => (u ++ ".rs")%string) (assigned existing (map (simple_name item kind_prefix item_name) its))) /\
+  forallb (fun f => snd f) split_naming_facts = true.
+Proof. exact (conj split_items_names (proj1 split_naming_as_modelled)). Qed.
+Print Assumptions C17_split_names_order_determined.
+
+(* settling the names group by group (names equal ignoring case), the groups in the iteration order of a seeded map (seeded change
+   C17e): with Foo, foo, foo_2 the file SET depends on that order *)
+Theorem C17_split_names_grouped_refuted :
+  exists pi pi', perm_fun pi /\ perm_fun pi' /\
+    ~ Permutation (assigned_grouped pi ["message_Foo"; "message_foo"; "message_foo_2"]%string)
+                  (assigned_grouped pi' ["message_Foo"; "message_foo"; "message_foo_2"]%string).
+Proof. exact split_names_grouped_refuted. Qed.
+Print Assumptions C17_split_names_grouped_refuted.
